@@ -1766,14 +1766,21 @@ class Context:
 
         # check certificate
         if self._verify_mode != ssl.CERT_NONE:
-            verify_certificate(
-                cadata=self._cadata,
-                cafile=self._cafile,
-                capath=self._capath,
-                certificate=self._peer_certificate,
-                chain=self._peer_certificate_chain,
-                server_name=self._server_name,
-            )
+            try:
+                verify_certificate(
+                    cadata=self._cadata,
+                    cafile=self._cafile,
+                    capath=self._capath,
+                    certificate=self._peer_certificate,
+                    chain=self._peer_certificate_chain,
+                    server_name=self._server_name,
+                )
+            except Alert:
+                raise
+            except Exception as exc:
+                # The X.509 libraries raise a variety of exception types when
+                # presented with hostile certificates.
+                raise AlertBadCertificate("Certificate could not be verified") from exc
 
         self.key_schedule.update_hash(input_buf.data)
         self._set_state(State.CLIENT_EXPECT_FINISHED)
